@@ -180,6 +180,7 @@ pub fn gen_note(
         let mut p = o.profile.clone();
         p.targets = inl;
         p.block_targets = blk;
+        p.own_key = Some(key.to_string());
         let doc = {
             let mut g = Gen {
                 rng,
